@@ -46,7 +46,7 @@ PROPS["C20"] = {"rules": ["R09", "R10"], "explanation": "wip", "assumptions": []
 PROPS["C02"] = {"rules": ["R16"], "explanation": "wip", "assumptions": [], "trusted": COMMON_TRUST}
 PROPS["C11"] = {"rules": ["R16", "R17"], "explanation": "wip", "assumptions": [], "trusted": COMMON_TRUST}
 PROPS["C14"] = {"rules": ["R16", "R18"], "explanation": "wip", "assumptions": [], "trusted": COMMON_TRUST}
-PROPS["C16"] = {"rules": ["R17"], "explanation": "wip", "assumptions": [], "trusted": COMMON_TRUST}
+PROPS["C16"] = {"rules": ["R01", "R02", "R03", "R17"], "explanation": "wip", "assumptions": [], "trusted": COMMON_TRUST}
 
 PROPS["C12"] = {"rules": ["R18", "R19"], "explanation": "wip", "assumptions": [], "trusted": COMMON_TRUST}
 PROPS["C13"] = {"rules": ["R19", "R18"], "explanation": "wip", "assumptions": [], "trusted": COMMON_TRUST}
